@@ -197,6 +197,10 @@ def flatten(m: h.Instantiable) -> h.Instantiable:
 
     # add all connections to the root level with names resolved
     for n in nodes:
+        if n.make_name() in new_module.namespace:
+            # Adding it would silently replace the Signal or Instance which has this name already
+            msg = f"Cannot flatten: instance path-name `{n.make_name()}` collides with another attribute of the flattened Module"
+            raise RuntimeError(msg)
         new_inst = new_module.add(n.inst.of(), name=n.make_name())
 
         for src_port_name, sig in n.conns.items():
